@@ -427,11 +427,11 @@ fn c04_case(ctx: &mut Ctx, rng: &mut Rng, i: u64) {
 }
 
 pub fn run_c03(ctx: &mut Ctx) {
-    let n = ctx.n(320, 10_000);
+    let n = ctx.n(1600, 10_000);
     ctx.family("chains", n, c03_case);
 }
 
 pub fn run_c04(ctx: &mut Ctx) {
-    let n = ctx.n(320, 8_000);
+    let n = ctx.n(1200, 8_000);
     ctx.family("chains", n, c04_case);
 }
